@@ -124,15 +124,15 @@ CHECKS['C06'] = {
     'unproved': ['Row::any_result body (Iterator::any)', 'join branches'],
 }
 CHECKS['C11'] = {
-    'verus_units': ['engine'],
+    'verus_units': ['engine', 'aggdispatch', 'aggresult'],
     'clause_prefixes': ['c11'],
     'technique': 'contract-based deductive verification (Verus): ExecutionEngine::execute dispatch, execution_config, ExecutionConfig constructors, AggregateExecutionEngine::execute extracted from /repo; induction lemma over the per-line contracts',
-    'claim': 'Proof (dispatch only) that with {update,result} each line folds into the aggregation state exactly as with {update} alone and the table shown is the table of the state after that line, that {result} alone shows the table of the current state without changing it, and (lemma) that the state after k lines is therefore identical in follow and batch mode. Assumes execute_result is a function of the aggregation state that leaves it unchanged.',
-    'note': 'ASSUMED, not proved: AggregateExecutionEngine::execute_result returns a function of the aggregation state and does not modify it (including its DISTINCT memory) - that function is outside the verified subset. Non-aggregate statements: rows emitted for line k depend on line k and the DISTINCT memory only (select unit).',
+    'claim': 'Proof (dispatch, cell refresh, row assembly) that with {update,result} each line folds into the aggregation state exactly as with {update} alone and the table shown is the table of the state after that line, that {result} alone shows the table of the current state without changing it, and (lemma) that the state after k lines is therefore identical in follow and batch mode. Inside execute_result two parts are proved: the refresh of a PERCENTILE cell (the body of the inner loop, rule E3c) overwrites exactly that cell with the value the aggregator shows now and running aggregates touch nothing, and the row assembly builds the table from the per-group cells with a DISTINCT memory that is fresh for every table (unit aggresult). That the remaining parts of execute_result (loop headers over the group maps, extract_result_rows_by_column, HAVING) are functions of the aggregation state is assumed.',
+    'note': 'ASSUMED, not proved: the parts of AggregateExecutionEngine::execute_result that are not extracted (iter_mut loop headers, extract_result_rows_by_column, accept_group) are functions of the aggregation state and do not modify it. Non-aggregate statements: rows emitted for line k depend on line k and the DISTINCT memory only (select unit).',
     'level': 'proof',
-    'explanation': 'Thin, deliberately: the claim is about the dispatch in ExecutionEngine::execute and AggregateExecutionEngine::execute.',
+    'explanation': 'Dispatch in ExecutionEngine::execute and AggregateExecutionEngine::execute (unit engine) over an abstract state machine (agg_step, agg_table); execute_result/refresh-cell (unit aggdispatch) and the row loop of execute_result (unit aggresult) discharge the part of "agg_table is a function of the state" that lies in extracted code.',
     'trusted': COMMON_TRUST + ['AggregateExecutionEngine::execute_update / execute_result as an abstract state machine (agg_step, agg_table)'],
-    'unproved': ['AggregateExecutionEngine::execute_result purity', 'FollowFileExecutor::execute'],
+    'unproved': ['extract_result_rows_by_column / accept_group purity', 'iteration order and coverage of the iter_mut loops in execute_result'],
 }
 
 CHECKS['C01'] = {
@@ -208,12 +208,12 @@ CHECKS['C04'] = {
     'verus_units': ['aggregate', 'aggdispatch', 'aggresult'],
     'clause_prefixes': ['c04', 'value.modify', 'value.map-numeric', 'value.default'],
     'technique': 'contract-based deductive verification (Verus): GroupAggregator::default / update (all arms) / is_null, ensure_sum_fits and Value::modify_same_type_numeric_nullable / map_numeric extracted from /repo against step functions written from the property text',
-    'claim': 'Proof (fold kernel and per-group dispatch) for all states and values that one update step of each running aggregate is exactly the documented step and that update_aggregate folds a row into the cell of ITS group and aggregate index only (get_group: an existing cell is returned as it is, the default is computed only for a missing cell; COUNT / COUNT(DISTINCT) add one exactly for qualifying rows; MIN / MAX by value order; NULL arguments never wipe an accumulated value; ARRAY_AGG appends in arrival order; STRING_AGG joins with the delimiter); execute_update leaves the state untouched for rows that fail WHERE. Step level: SUM / AVG / STDDEV-VARIANCE bookkeeping add the value exactly or report an error (never wrap), the first value only initialises, AVG shows sum/count, PERCENTILE collects every value, BOOL_AND / BOOL_OR combine two-valued, COUNT(DISTINCT) counts a value only at its first occurrence; the unimplemented!() arms of default are unreachable under its precondition. Table assembly (unit aggresult): execute_result zips the value columns position by position into rows (no value from another position), under the stated assumption that the columns are rectangular - which COUNT over an all-NULL group violates (known finding). NOT decided: update_aggregates (group key evaluation, loop over the aggregates, HAVING aggregates), the column extraction ( extract_result_rows_by_column, accept_group) - "one row per group, no cell in another group\'s row", HAVING and the PERCENTILE index are outside the claim.',
-    'note': 'Trusted: HashSet<Value> as a set under Value equality (VValueSet), f64 arithmetic and chrono Duration arithmetic as uninterpreted functions, the variance formula closure and the INTERVAL squaring closure are stubbed (assumed). Defects seen by reading only in the unreached code (column shift when an aggregate has no entry for a group, DISTINCT only under HAVING, PERCENTILE(1.0)) are recorded in DESIGN.md, not raised by this check.',
+    'claim': 'Proof (fold kernel and per-group dispatch) for all states and values that one update step of each running aggregate is exactly the documented step and that update_aggregate folds a row into the cell of ITS group and aggregate index only (get_group: an existing cell is returned as it is, the default is computed only for a missing cell; COUNT / COUNT(DISTINCT) add one exactly for qualifying rows; MIN / MAX by value order; NULL arguments never wipe an accumulated value; ARRAY_AGG appends in arrival order; STRING_AGG joins with the delimiter); execute_update leaves the state untouched for rows that fail WHERE. Step level: SUM / AVG / STDDEV-VARIANCE bookkeeping add the value exactly or report an error (never wrap), the first value only initialises, AVG shows sum/count, PERCENTILE collects every value, BOOL_AND / BOOL_OR combine two-valued, COUNT(DISTINCT) counts a value only at its first occurrence; the unimplemented!() arms of default are unreachable under its precondition. Table assembly (unit aggresult): execute_result zips the value columns position by position into rows (no value from another position), under the stated assumption that the columns are rectangular - which COUNT over an all-NULL group violates (known finding). update_aggregates (unit aggdispatch): the group key of a row is the values of its GROUP BY expressions on that row (map_result_vec is verified: one result per element in order, or an error), a row without a key is an error that aggregates nothing, and every select-list aggregate is dispatched exactly once, in order, under its own index for that key (fold_select_list); execute_update folds exactly the rows that pass WHERE. PERCENTILE (update_value) shows the value at rank min(floor(p*n), n-1) of the sorted values of the group, never one past the end, and the refresh of a shown cell overwrites exactly that cell. NOT decided: the HAVING aggregates inside update_aggregates (closure over &mut self, stubbed), the column extraction ( extract_result_rows_by_column, accept_group) - "one row per group, no cell in another group\'s row", HAVING and the PERCENTILE index are outside the claim.',
+    'note': 'Trusted: HashSet<Value> as a set under Value equality (VValueSet), f64 arithmetic and chrono Duration arithmetic as uninterpreted functions, the variance formula closure and the INTERVAL squaring closure are stubbed (assumed). The IEEE product and the float-to-usize cast of the PERCENTILE rank are an uninterpreted function (percentile_position).',
     'level': 'proof',
     'explanation': 'sum_step etc. are the semantic steps; C15 lemmas lift them to order-insensitivity.',
     'trusted': COMMON_TRUST + ['std HashSet<Value> / BTreeMap / HashMap behaviour', 'float and interval arithmetic uninterpreted'],
-    'unproved': ['AggregateExecutionEngine::update_aggregates (key evaluation, loop, HAVING closure)', 'execute_result, extract_result_rows_by_column, accept_group', 'GroupAggregator::update_value (PERCENTILE index, sort)'],
+    'unproved': ['HAVING aggregates in update_aggregates (visit closure, stubbed branch)', 'extract_result_rows_by_column, accept_group', 'update_aggregate as a whole is linked to its arms only by reading (dispatch match is not extracted)', 'Vec<Value>::sort (sorted permutation stand-in)', 'iter_mut loop headers of execute_result'],
 }
 CHECKS['C15'] = {
     'verus_units': ['aggregate', 'aggdispatch'],
